@@ -10,7 +10,7 @@
 //       alphabet token / duplication of 40 small valid programs.
 // Oracle: outcome in {OK, type-check/validation error, Gno panic, out-of-gas, alloc-limit}. Violations: a Go
 // runtime.Error (raw recovered value seen through a hook in the keeper's doRecover), worker death (Go fatal
-// error / OOM under the cap), no termination within the CPU budget when re-run alone.
+// error), CPU or memory budget exceeded when re-run alone.
 package main
 
 import (
@@ -97,8 +97,8 @@ type tailBuf struct {
 func (t *tailBuf) Write(p []byte) (int, error) {
 	t.mu.Lock()
 	defer t.mu.Unlock()
-	if len(t.head) < 4096 {
-		n := 4096 - len(t.head)
+	if len(t.head) < 1<<17 {
+		n := 1<<17 - len(t.head)
 		if n > len(p) {
 			n = len(p)
 		}
@@ -124,7 +124,7 @@ func (s *sched) spawn() (*worker, error) {
 	if s.thorough {
 		tier = "thorough"
 	}
-	cmd.Env = append(os.Environ(), "C11_TIER="+tier, "GOMAXPROCS=2", "GOTRACEBACK=single")
+	cmd.Env = append(os.Environ(), "C11_TIER="+tier, "GOMAXPROCS=2", "GOTRACEBACK=all")
 	in, _ := cmd.StdinPipe()
 	outp, _ := cmd.StdoutPipe()
 	w := &worker{cmd: cmd, in: in, errbuf: &tailBuf{}, lines: make(chan string, 1024)}
@@ -161,6 +161,41 @@ func (w *worker) kill() {
 	w.cmd.Process.Kill()
 	w.cmd.Wait()
 }
+
+// quitDump asks the Go runtime of the worker for a goroutine dump (SIGQUIT) and reaps it.
+func (w *worker) quitDump() string {
+	w.cmd.Process.Signal(syscall.SIGQUIT)
+	done := make(chan struct{})
+	go func() {
+		for range w.lines {
+		}
+		w.cmd.Wait()
+		close(done)
+	}()
+	select {
+	case <-done:
+	case <-time.After(20 * time.Second):
+		w.cmd.Process.Kill()
+		<-done
+	}
+	return w.errbuf.String()
+}
+
+// rssBytes of a process from /proc.
+func rssBytes(pid int) int64 {
+	b, err := os.ReadFile(fmt.Sprintf("/proc/%d/statm", pid))
+	if err != nil {
+		return 0
+	}
+	f := strings.Fields(string(b))
+	if len(f) < 2 {
+		return 0
+	}
+	p, _ := strconv.ParseInt(f[1], 10, 64)
+	return p * int64(os.Getpagesize())
+}
+
+const rssCap = 4 << 30 // resident-set cap of a worker (the VM's allocation limit is 500 MB of accounted bytes)
 
 // cpuTime of a process (user+sys) from /proc.
 func cpuTime(pid int) time.Duration {
@@ -203,7 +238,7 @@ func (s *sched) runChunk(w *worker, c chunk) (alive bool) {
 		s.famDone[c.fam.Name()] += done
 		s.mu.Unlock()
 	}
-	tick := time.NewTicker(250 * time.Millisecond)
+	tick := time.NewTicker(60 * time.Millisecond)
 	defer tick.Stop()
 	for {
 		select {
@@ -248,12 +283,19 @@ func (s *sched) runChunk(w *worker, c chunk) (alive bool) {
 		case <-tick.C:
 			if cur >= 0 {
 				used := cpuTime(w.cmd.Process.Pid) - curCPU
-				if used > limit || time.Since(curStart) > 20*limit {
-					w.kill()
-					for range w.lines {
-					}
+				rss := rssBytes(w.cmd.Process.Pid)
+				kind, msg := "", ""
+				switch {
+				case rss > rssCap:
+					kind = "memory"
+				case used > limit || time.Since(curStart) > 20*limit:
+					kind = "cpu"
+				}
+				if kind != "" {
+					w.quitDump()
 					flush()
-					s.incident(c, cur, "hang", fmt.Sprintf("no result after %.0fs CPU (limit %.0fs)", used.Seconds(), limit.Seconds()))
+					msg = fmt.Sprintf("%s: %.0fs CPU used (limit %.0fs), RSS %d MB (cap %d MB)", kind, used.Seconds(), limit.Seconds(), rss>>20, rssCap>>20)
+					s.incident(c, cur, kind, msg)
 					if cur+1 < c.to {
 						s.pushFront(chunk{fam: c.fam, from: cur + 1, to: c.to})
 					}
@@ -481,16 +523,34 @@ func main() {
 		s.runAll(4)
 	}
 	confirmed := s.incidents
-	classes := map[string][]Case{}
+	sort.Slice(confirmed, func(i, j int) bool {
+		if confirmed[i].fam != confirmed[j].fam {
+			return confirmed[i].fam < confirmed[j].fam
+		}
+		return confirmed[i].idx < confirmed[j].idx
+	})
+	type group struct {
+		cases []Case
+		notes []string
+	}
+	classes := map[string]*group{}
 	for _, in := range confirmed {
 		c := g.family(in.fam).Case(in.idx)
 		var key string
 		if in.kind == "death" {
+			// grouped by crash site: a Go fatal error is deterministic
 			key = "worker-death" + in.msg
 		} else {
-			key = "no-termination-within-cpu-budget (re-run alone)"
+			// one key per failing input: which of the two budgets trips first is a matter of timing
+			key = "resource-budget-exceeded: " + c.ID
 		}
-		classes[key] = append(classes[key], c)
+		gr := classes[key]
+		if gr == nil {
+			gr = &group{}
+			classes[key] = gr
+		}
+		gr.cases = append(gr.cases, c)
+		gr.notes = append(gr.notes, in.msg)
 	}
 	var keys []string
 	for k := range classes {
@@ -498,8 +558,8 @@ func main() {
 	}
 	sort.Strings(keys)
 	for _, k := range keys {
-		cs := classes[k]
-		sort.Slice(cs, func(i, j int) bool {
+		cs := classes[k].cases
+		sort.SliceStable(cs, func(i, j int) bool {
 			if len(cs[i].Src) != len(cs[j].Src) {
 				return len(cs[i].Src) < len(cs[j].Src)
 			}
@@ -515,8 +575,13 @@ func main() {
 		if len(src) > 4000 {
 			src = src[:2000] + fmt.Sprintf("\n... (%d bytes) ...\n", len(cs[0].Src)) + src[len(src)-500:]
 		}
-		r.Outcome("VIOLATION:" + k)
-		r.Violation(k, map[string]any{"count": len(cs), "minimal_case": cs[0].ID, "minimal_source": src, "gas_limit": cs[0].Gas, "cases": ids})
+		if strings.HasPrefix(k, "worker-death") {
+			r.Outcome("VIOLATION:" + k)
+		} else {
+			r.Outcome("VIOLATION:resource-budget-exceeded")
+		}
+		r.Violation(k, map[string]any{"count": len(cs), "minimal_case": cs[0].ID, "minimal_source": src, "gas_limit": cs[0].Gas, "cases": ids,
+			"budgets": fmt.Sprintf("CPU %.0fs (4x when re-run alone), RSS cap %d MB, VM allocation limit 500 MB", s.cpuLimit.Seconds(), rssCap>>20)})
 	}
 	keys = keys[:0]
 	for k := range s.faults {
@@ -576,8 +641,8 @@ func main() {
 		"cases enter at the keeper (MsgRun/MsgAddPackage ValidateBasic + VMKeeper.Run/AddPackage) of a re-created vm test environment; ante handler, signatures and the baseapp's own recover are not in the loop",
 		"raw recovered values are observed through a hook inserted (build overlay) at the top of the keeper's doRecoverInternal; values recovered and rendered as errors deeper (parser/Go2Gno) are recognised by their 'runtime error:' text",
 		"Go-level panics that are not runtime.Error (strings/errors thrown by the preprocessor or machine) are NOT flagged; they are listed under review_candidates",
-		"worker memory cap: RLIMIT_AS 6 GiB + GOMEMLIMIT 3 GiB (the VM allocator limit is 500 MB of accounted bytes); per-case budget is CPU time of the worker process (not wall clock); suspects are re-run alone with 4x the budget before being reported",
-		"gas limits: 1e7 token sequences, 2e7 mutations, 5e7 menus, 1e8 constants, 3e9 (block maximum) ladders",
+		"worker memory: parent-enforced 4 GiB resident-set cap (the VM allocator limit is 500 MB of accounted bytes) with RLIMIT_AS 12 GiB as backstop; per-case budget is CPU time of the worker process (not wall clock): 40 s quick / 90 s thorough in a batch, suspects are re-run alone in a fresh worker with 4x that before being reported",
+		"gas limits: 1e7 token sequences, 2e7 mutations, 2e7 menus, 1e8 constants, 3e9 (block maximum) ladders",
 	}
 	r.Finish("all token sequences of length <= k over the 34-token alphabet in 5 templates (quick k<=3 + k=4 over 16 tokens; thorough k<=4 + k=5 over 16 tokens); ladders: 45 constructs x sizes up to 30000 (quick) / 200000 (thorough); constant, cycle and resource menus; all single-token deletions/substitutions/duplications of 40 programs. distinct = distinct (family, index) cases executed",
 		exhaustive, map[string]any{
